@@ -106,6 +106,14 @@ class ExprRewriter(ast.NodeTransformer, EmitterMixin):
     def _inside_attrsub_load_chain(self):
         return self._top_level_node_for_symbol is not None
 
+    def _visit_chain_base(self, node: ast.expr):
+        if isinstance(node, (ast.Attribute, ast.Subscript, ast.Call)):
+            # the next link of the same chain
+            return self.visit(node)
+        # any other expression ends the chain: symbols inside it are symbols of their own
+        with self.attrsub_context(None):
+            return self.visit(node)
+
     @staticmethod
     def _get_attrsub_event(node: Union[ast.Attribute, ast.Subscript]) -> TraceEvent:
         is_subscript = isinstance(node, ast.Subscript)
@@ -259,7 +267,7 @@ class ExprRewriter(ast.NodeTransformer, EmitterMixin):
                 extra_keywords: Dict[str, ast.AST] = {}
                 if isinstance(node.value, ast.Name):
                     extra_keywords["obj_name"] = fast.Str(node.value.id)
-                node.value = self.visit(node.value)
+                node.value = self._visit_chain_base(node.value)
                 if should_emit_evt:
                     if is_subscript:
                         subscript_name = None
@@ -374,7 +382,7 @@ class ExprRewriter(ast.NodeTransformer, EmitterMixin):
                     ret_as_call.func, call_context=True
                 )
             else:
-                ret_as_call.func = self.visit(ret_as_call.func)
+                ret_as_call.func = self._visit_chain_base(ret_as_call.func)
 
         # TODO: need a way to rewrite ast of subscript args,
         #  and to process these separately from outer rewrite
